@@ -306,7 +306,9 @@ def configs(tier, rng):
         X = low_rank(sh, 2, 1)
         msk = (data(sh, 7) > 0.15) * 1.0
         inits = [("random", "truncated_svd", False, 2), ("svd", "truncated_svd", False, 2), ("svd", "randomized_svd", False, 2),
-                 ("svd", "randomized_svd", True, 2), ("svd", "truncated_svd", False, max(sh) + 1), ("user", "truncated_svd", False, 2)]
+                 ("svd", "randomized_svd", True, 2), ("svd", "truncated_svd", False, max(sh) + 1), ("user", "truncated_svd", False, 2),
+                 # rank above SOME mode sizes only: the random padding columns of exactly these modes
+                 ("svd", "truncated_svd", False, min(sh) + 1), ("svd", "truncated_svd", False, sorted(sh)[1] + 1), ("svd", "symeig_svd", False, min(sh) + 1)]
         if thorough:
             inits += [("svd", "symeig_svd", False, 2), ("svd", "truncated_svd", True, 2), ("random", "randomized_svd", True, 2),
                       ("svd", "randomized_svd", False, max(sh) + 1), ("random", "truncated_svd", False, max(sh) + 1), ("svd", "randomized_svd", True, min(sh) + 1)]
@@ -596,6 +598,17 @@ def configs(tier, rng):
     for nm, f in free:
         out.append(Cfg(f"rng_free:{nm}", "E_rng_free", opts_lit(), lambda rs, f=f: f(), kinds=("none",), seedable=False, rng_free=True,
                        entry_point=f"tensorly:{nm}"))
+    # tensor_train / tensor_ring / tensor_train_matrix have an `svd` option and NO random_state parameter: deterministic with the default
+    # (and the symeig) SVD -- checked like every function without random choices, under the model E_tt_svd -- while
+    # svd='randomized_svd' makes them draw from the global generator, unseedably (outside the statement: traced only)
+    X4m = data((4, 4), 80).reshape((2, 2, 2, 2))
+    for svdm in ("truncated_svd", "symeig_svd", "randomized_svd"):
+        det = svdm != "randomized_svd"
+        for nm, shp, f in (("tensor_train", (4, 3, 5), lambda svdm=svdm: D.tensor_train(Xc, [1, 2, 2, 1], svd=svdm)),
+                           ("tensor_ring", (4, 3, 5), lambda svdm=svdm: D.tensor_ring(Xc, [2, 2, 2, 2], svd=svdm)),
+                           ("tensor_train_matrix", (2, 2, 2, 2), lambda svdm=svdm: D.tensor_train_matrix(X4m, [1, 2, 1], svd=svdm))):
+            out.append(Cfg(f"{nm}[{svdm}]", "E_tt_svd", opts_lit(shp, 2, "svd", svdm), lambda rs, f=f: f(), kinds=("none",), seedable=False, rng_free=det,
+                           entry_point=f"tensorly.decomposition.{nm}"))
     # no random_state argument but module-level draws: outside the statement, trace only
     out.append(Cfg("power_iteration", "E_power_iteration", opts_lit((4, 3, 5), 1, iters=2, aux=2), lambda rs: _cp_power.power_iteration(Xc, n_repeat=2, n_iteration=2),
                    kinds=("none",), seedable=False, entry_point="tensorly.decomposition._cp_power.power_iteration"))
@@ -1087,8 +1100,74 @@ class _Scope:
         return p
 
     # -- statements
+    @staticmethod
+    def terminates(stmts):
+        """every path through the statement list ends in return / raise / break / continue"""
+        if not stmts:
+            return False
+        last = stmts[-1]
+        if isinstance(last, (ast.Return, ast.Raise, ast.Break, ast.Continue)):
+            return True
+        if isinstance(last, ast.If) and last.orelse:
+            return _Scope.terminates(last.body) and _Scope.terminates(last.orelse)
+        return False
+
+    @staticmethod
+    def may_exit(s):
+        """a RETURN somewhere inside the statement (not inside a nested function or class): what follows may be skipped by a
+        call that completes.  (A raise deeper inside is PFail where it stands: the failure flag is sticky and the model keeps
+        going, conservatively, as everywhere.)"""
+        todo = [s]
+        while todo:
+            n = todo.pop()
+            if isinstance(n, ast.Return):
+                return True
+            for c in ast.iter_child_nodes(n):
+                if not isinstance(c, (ast.FunctionDef, ast.AsyncFunctionDef, ast.ClassDef, ast.Lambda)):
+                    todo.append(c)
+        return False
+
     def block(self, stmts):
-        return seq([self.stmt(s) for s in stmts])
+        """a statement list WITH its early exits: what follows `if c: ... return / raise` is transcribed on the other branch
+        (exactly the control flow of structured code); a raise outside a try block is PFail; after a statement that may
+        RETURN from deeper inside (a loop, a with / try block, a partially returning if) the rest is optional"""
+        stmts = list(stmts)
+        out = []
+        for idx, s in enumerate(stmts):
+            rest = stmts[idx + 1:]
+            if isinstance(s, ast.Return):
+                out.append(self.expr(s.value))
+                return seq(out)
+            if isinstance(s, ast.Raise):
+                out.append(seq([self.expr(c) for c in (s.exc, s.cause) if c is not None]))
+                if not getattr(self, "try_depth", 0):
+                    out.append("PFail")
+                return seq(out)
+            if isinstance(s, (ast.Break, ast.Continue)):
+                return seq(out)
+            if isinstance(s, ast.If):
+                t = self.truth(s.test)
+                if t is not None:
+                    out.append(self.expr(s.test))
+                    out.append(self.block(list(s.body if t else s.orelse) + rest))
+                    return seq(out)
+                tb, to = self.terminates(s.body), self.terminates(s.orelse)
+                if tb or to:
+                    ev = self.expr(s.test)
+                    k0 = dict(self.known)
+                    a = self.block(list(s.body) + ([] if tb else rest))
+                    k1 = self.known
+                    self.known = dict(k0)
+                    b = self.block(list(s.orelse) + ([] if to else rest))
+                    if to and not tb:
+                        self.known = k1
+                    out += [ev, branch(a, b)]
+                    return seq(out)
+            out.append(self.stmt(s))
+            if rest and self.may_exit(s):
+                out.append(branch(self.block(rest), "PSkip"))
+                return seq(out)
+        return seq(out)
 
     @staticmethod
     def assigned_in(nodes):
@@ -1163,7 +1242,10 @@ class _Scope:
             return seq(ev + [self.block(s.body)])
         if isinstance(s, ast.Try):
             self.forget(self.assigned_in([s]))
-            out = seq([self.block(s.body)] + [branch(self.block(h.body), "PSkip") for h in s.handlers] + [self.block(s.orelse), self.block(s.finalbody)])
+            self.try_depth = getattr(self, "try_depth", 0) + 1       # a raise inside the try body may be caught: not PFail
+            body_sk = self.block(s.body)
+            self.try_depth -= 1
+            out = seq([body_sk] + [branch(self.block(h.body), "PSkip") for h in s.handlers] + [self.block(s.orelse), self.block(s.finalbody)])
             self.forget(self.assigned_in([s]))
             return out
         if isinstance(s, ast.Assign) and len(s.targets) == 1:
@@ -1218,6 +1300,27 @@ class _Scope:
                 r = self.ex.resolve_symbol(self.rel, value.id)
                 if isinstance(r, str) and isinstance(self.ex.defs[r][1], ast.FunctionDef):
                     self.fun_aliases.setdefault(name, set()).add(r)
+            if name is not None and isinstance(value, ast.Call) and \
+                    self.ex.norm_dotted(self.rel, _dotted(value.func) or "") in ("numpy.random.RandomState", "numpy.random.mtrand.RandomState"):
+                # x = RandomState(...): seeded with the argument / an int literal -> like check_random_state; seeded with another
+                # expression -> a CHILD generator (PSeedFrom; the draws inside the expression come first; a clock / pid /
+                # object id in the expression is a process-wide entropy source); without a seed -> the operating system's entropy
+                args = list(value.args) + [k.value for k in value.keywords if k.arg == "seed"]
+                x = self.var(name)
+                if len(args) == 1 and not (isinstance(args[0], ast.Constant) and args[0].value is None):
+                    self.pre = []
+                    p = self.pexp(args[0])
+                    pre = list(self.pre)
+                    if p is not None:
+                        return seq(pre + ["(PCheck %d%%nat %s)" % (x, p)])
+                    ev = self.expr(args[0])
+                    clock = any(isinstance(n, ast.Call) and ((_dotted(n.func) or "?").split(".")[0] in ("time", "datetime", "os", "uuid", "id", "hash", "secrets", "random"))
+                                for n in ast.walk(args[0]))
+                    if clock:
+                        self.ex.flags.append((self.where, f"generator seeded from a clock / process id / object id: {ast.unparse(value)[:80]}"))
+                    return seq([ev] + (["(PDrawNp 0%nat)"] if clock else []) + ["(PSeedFrom %d%%nat 0%%nat)" % x])
+                self.ex.flags.append((self.where, f"generator seeded from the operating system: {ast.unparse(value)[:80]}"))
+                return seq(["(PDrawNp 0%nat)", "(PAssign %d%%nat PGlobE)" % x])
             if self.is_check_call(value):
                 sub = seq([self.expr(a) for a in value.args[1:]])
                 self.pre = []
@@ -1612,11 +1715,16 @@ def rs_lit(kind, seed):
     return {"none": "HNone", "int": f"(HInt {C.z(seed)})", "inst": f"(HInst {C.z(seed)})", "globobj": "HGlobObj", "bad": "HBad"}[kind]
 
 
-def traced_call(cfg, kind, seed):
+_RAW = object()
+
+
+def traced_call(cfg, kind, seed, raw=_RAW):
     """one call of the implementation under the draw-trace; returns (call_impl result, projection bits, passed instance)"""
     G = _Installed.G
     passed = None
-    if kind == "none":
+    if raw is not _RAW:
+        rs = raw
+    elif kind == "none":
         rs = None
     elif kind == "int":
         rs = int(seed)
@@ -1723,6 +1831,27 @@ def check_config(cfg, seeds, rng, chk, cases, meta, n_perturb=1):
                     fail("C16_rng_free", "function without random choices returned different results on a repeated call", kind, seed)
                 if proj[1] or proj[2] or proj[4] or proj2[4]:
                     fail("C16_rng_free", "function without random choices drew random numbers / moved the global generator", kind, seed)
+    # FALSY-LOOKING seeds.  0 is an integer seed like any other (every configuration is run with seed 0 above); False is an
+    # int in Python and seeds like 0; numpy.int64(0) / 0.0 are rejected by check_random_state today -- whatever the code does
+    # with them, it must never treat them like None: no draw from the global generator, global state untouched, and if the
+    # call is accepted it returns what seed 0 returns.
+    if "int" in cfg.kinds and cfg.seedable and not skipped and 0 in seeds:
+        perturb(rng)
+        r0 = C.call_impl(cfg.fn, 0, timeout=60)
+        for label, val, modelled in (("False", False, True), ("numpy.int64(0)", np.int64(0), False), ("0.0", 0.0, False)):
+            perturb(rng)
+            rf, projf, _ = traced_call(cfg, "raw", 0, raw=val)
+            chk.cov["evaluations"] += 1
+            chk.count(key=(cfg.name, "falsy:" + label), nontrivial=True)
+            chk.hist("falsy-looking seed " + label, rf[0])
+            if timed_out(rf) or timed_out(r0):
+                continue
+            if modelled and (rf[0] == "ok" or r0[0] != "ok"):
+                emit("int", 0, projf)          # the model: bool is an int, RandomState(False) is RandomState(0)
+            if projf[1] or projf[4]:
+                fail("C16_global_untouched", f"random_state={label} (a falsy value that is not None) made the call draw from / move the global generator", "falsy:" + label, 0)
+            elif rf[0] == "ok" and r0[0] == "ok" and not same(rf, r0):
+                fail("C16_seeded_reproducible", f"random_state={label} is accepted but does not give the result of the integer seed 0", "falsy:" + label, 0)
     # fit twice on ONE estimator constructed with an int seed
     if cfg.estimator and not skipped:
         E = cfg.estimator
@@ -1963,7 +2092,7 @@ def run(chk):
         # a second interpreter computes the same int-seeded calls concurrently (different hash seed, different global state)
         pick2 = [c for c in cfgs if c.seedable and "int" in c.kinds and not c.rng_free]
         pick2 = [pick2[i] for i in sorted(rng.sample(range(len(pick2)), min(len(pick2), 30 if tier == "quick" else 150)))]
-        calls2 = [[c.name, seeds[1 + (i % (len(seeds) - 1))]] for i, c in enumerate(pick2)]
+        calls2 = [[c.name, seeds[i % len(seeds)]] for i, c in enumerate(pick2)]
         gseeds2 = [rng.randrange(2 ** 31) for _ in range(2)]      # two interpreters, two hash seeds
         procs2 = [other_process_start(tier, calls2, g) for g in gseeds2]
         # corpus first: the historical defects of this property and the gaps the mutation self-tests exposed, with fixed seeds
@@ -2179,6 +2308,8 @@ def replay(payload):
                 print("replay:", cfg.name, "seed", seed, "->", "fails" if bad else "holds")
                 return 1 if bad else 0
             seeds = [int(seed) if seed is not None else 0, 1, 2]
+            if str(inp.get("random_state", "")).startswith("falsy"):
+                seeds = [0, 1, 2]
             for _ in range(3):
                 check_config(found[0], seeds, rng, chk, [], [], n_perturb=2)
     finally:
